@@ -250,7 +250,7 @@ impl Reference {
                     r
                 })
                 .collect(),
-            Stage::Filter(f) => v.into_iter().filter(|r| f.keep(r.v)).collect(),
+            Stage::Filter(f) => v.into_iter().filter(|r| f.keep(r.v, acc)).collect(),
             Stage::FlatMap(f) => {
                 let mut out = Vec::new();
                 for r in &v {
@@ -264,7 +264,7 @@ impl Reference {
             }
             Stage::FilterMap(f, g) => v
                 .into_iter()
-                .filter(|r| f.keep(r.v))
+                .filter(|r| f.keep(r.v, 0))
                 .map(|mut r| {
                     r.v = g.apply(r.v, 0);
                     r
